@@ -1113,31 +1113,108 @@ theorem solveMilp_sound (heps : 0 ≤ cfg.eps) (hgt : 0 ≤ cfg.gapTol) (hA : M.
     have hne : root.status ≠ .OPTIMAL := by
       have : root.status = .INFEASIBLE := by simpa using hs
       rw [this]; decide
-    exact ⟨fun _ y hy => hN.infeas hne y hy (inRoot y hy), fun hst => by cases hst⟩
+    exact ⟨fun _ y hy => hN.infeas hne y hy (inRoot y hy), (fun hst => by cases hst)⟩
   · rename_i hs
     rw [if_neg hs] at hok
     split
-    · exact ⟨fun hst => by cases hst, fun hst => by cases hst⟩
+    · exact ⟨(fun hst => by cases hst), (fun hst => by cases hst)⟩
     · rename_i hs2
       rw [if_neg hs2] at hok
       cases hmf : mostFractional root.sol M.ints cfg.eps with
       | none =>
         rw [hmf] at hok
-        simp only [] at hok ⊢
-        have hN := nodeCheck_sound M cfg.eps _ _ _ hA hok
-        refine ⟨fun hst => by cases hst, fun _ => ?_⟩
-        by_cases hst : root.status = .OPTIMAL
-        · refine ⟨root.sol, root.obj, rfl, rfl, hN.acc hst hmf, hN.objv hst, fun y hy => ?_⟩
-          have := hN.bound hst y hy (inRoot y hy)
-          have : 0 ≤ optSlack cfg root.obj := le_trans heps (le_max_left _ _)
-          linarith
-        · -- a root LP that is neither OPTIMAL nor INFEASIBLE/UNBOUNDED: the check certifies an empty box
-          refine ⟨root.sol, root.obj, rfl, rfl, ?_, ?_, fun y hy => absurd (inRoot y hy) (hN.infeas hst y hy)⟩
-          all_goals sorry
+        simp only [Bool.and_eq_true, beq_iff_eq] at hok ⊢
+        obtain ⟨hst, hchk⟩ := hok
+        have hN := nodeCheck_sound M cfg.eps _ _ _ hA hchk
+        refine ⟨(fun h => by cases h), fun _ => ?_⟩
+        refine ⟨root.sol, root.obj, rfl, rfl, hN.acc hst hmf, hN.objv hst, fun y hy => ?_⟩
+        have := hN.bound hst y hy (inRoot y hy)
+        have : 0 ≤ optSlack cfg root.obj := le_trans heps (le_max_left _ _)
+        linarith
       | some j0 =>
         rw [hmf] at hok
         simp only [] at hok ⊢
-        sorry
+        have hok0 := loop_ok_mono M cfg _ _ hok
+        have hchk : nodeCheck M cfg.eps (lower0 M) (upper0 M) root = true := hok0
+        have hN := nodeCheck_sound M cfg.eps _ _ _ hA hchk
+        refine bnb_mirror_sound M cfg heps hgt hA hints _ _ ?_ ?_ hok
+        · -- the invariant at loop entry
+          refine ⟨?_, ?_, ?_⟩
+          · intro N hN' y hy hreg
+            simp only [absState, initState, List.map_cons, List.map_nil, List.mem_singleton] at hN'
+            subst hN'
+            simp only [absNode]
+            by_cases hst : root.status = .OPTIMAL
+            · exact hN.bound hst y hy (inRoot y hy)
+            · exact absurd (inRoot y hy) (hN.infeas hst y hy)
+          · intro y hy _
+            refine ⟨absNode M ⟨M.sign * root.obj, 0, lower0 M, upper1 M cfg root, 0⟩, ?_, ?_⟩
+            · simp [absState, initState]
+            · intro j hj
+              refine ⟨(inRoot y hy j hj).1, fun h hh => ?_⟩
+              simp only [] at hh
+              unfold upper1 at hh
+              by_cases ht : tightened M cfg root = true
+              · rw [if_pos ht] at hh
+                have hjn : j < M.n := by rw [← M.Pn]; exact hj
+                rw [List.getD_eq_getElem?_getD, List.getElem?_map, List.getElem?_range hjn] at hh
+                simp only [Option.map_some, Option.getD_some] at hh
+                split at hh
+                · rename_i hc
+                  simp only [Option.some.injEq] at hh
+                  rw [← hh]
+                  exact htight ht y hy j (by simpa using hc)
+                · cases hh
+              · rw [if_neg ht] at hh
+                unfold upper0 at hh; rw [getD_replicate_none] at hh; cases hh
+          · intro p v hinc
+            simp only [absState, initState] at hinc
+            unfold warmBest at hinc
+            cases hw : cfg.warm with
+            | none => rw [hw] at hinc; cases hinc
+            | some ws =>
+              rw [hw] at hinc
+              simp only [] at hinc
+              split at hinc
+              · rename_i hcond
+                simp only [Option.map_some, Option.some.injEq, Prod.mk.injEq] at hinc
+                obtain ⟨rfl, rfl⟩ := hinc
+                rw [Bool.and_eq_true, beq_iff_eq] at hcond
+                exact ⟨⟨hcond.1, hcond.2⟩, objAt_sign M ws⟩
+              · cases hinc
+        · -- well-formed tree
+          intro t ht
+          simp only [initState, List.mem_singleton] at ht
+          subst ht
+          simp only []
+          constructor
+          · unfold lower0; rw [List.length_replicate, M.Pn]
+          · unfold upper1
+            split
+            · rw [List.length_map, List.length_range, M.Pn]
+            · unfold upper0; rw [List.length_replicate, M.Pn]
+
+/-- non-vacuity: `max x + y, 2x + 2y ≤ 3, x, y` integer – the mirror branches, every node passes
+`nodeCheck`, the answer is `OPTIMAL 1` -/
+example : (solveMilp ⟨[1, 1], [[2, 2]], [3], [0, 1], false⟩ ⟨1 / 1000000, 10000, 100, 1 / 1000000, 1, none⟩).ok = true ∧
+    (solveMilp ⟨[1, 1], [[2, 2]], [3], [0, 1], false⟩ ⟨1 / 1000000, 10000, 100, 1 / 1000000, 1, none⟩).status = .OPTIMAL ∧
+    (solveMilp ⟨[1, 1], [[2, 2]], [3], [0, 1], false⟩ ⟨1 / 1000000, 10000, 100, 1 / 1000000, 1, none⟩).objective = some 1 := by
+  decide +kernel
+
+/-- the tightening hypothesis of `solveMilp_sound` holds for integer data (`eps < 1`) -/
+theorem tighten_justified (heps1 : cfg.eps < 1) (hints : ∀ j ∈ M.ints, j < M.P.n)
+    (hAint : ∀ i j, ∃ z : ℤ, M.P.a i j = z) (hbint : ∀ i, ∃ z : ℤ, vget M.P.b i = z) (root : NodeRes)
+    (ht : tightened M cfg root = true) : ∀ y, MFeas M y → ∀ j ∈ M.ints, vget y j ≤ 1 := by
+  unfold tightened at ht
+  rw [Bool.and_eq_true] at ht
+  have hdet : detectBinary M.P M.ints cfg.eps = true := by
+    have : detectBinary M.P M.ints cfg.eps = detectBinary M.U M.ints cfg.eps := by
+      unfold detectBinary boundedVars rowNz
+      rw [show M.P.n = M.U.n from M.Pn]
+      rfl
+    rw [this]; exact ht.2
+  intro y hy j hj
+  exact binary_tightening_sound M.P M.ints cfg.eps heps1 hAint hbint hdet _ hy ⟨j, hints j hj⟩ hj
 
 end mirrorSound
 
